@@ -367,7 +367,14 @@ end ObjectiveLaws
 
 `run o sp (St.init o sp) ops` is the planner after ANY history `ops` of added start states, oracle answers,
 (re-)entered `solve()` calls and loop passes — every script, every interruption point, every continued
-solve.  `Laws o`: `isCostBetterThan` is a strict weak order, `combine c identity = c`, motion costs never
+solve.  Round 10: `sp.delayCC` selects the choose-parent loop (`true`, the default: candidates sorted by cost and
+collision-checked lazily; `false`: the classic loop over the neighbourhood).  The incumbent theorems
+(`rrtstar_best_cost_monotone`, `rrtstar_no_goal_infinite`, `rrtstar_optimized_flag`) hold for both loops as they stand.
+The tree / cost / truthfulness theorems take `Clean o sp (St.init o sp) ops`: along the history the classic loop never
+cached the new motion's `incCost` for `nmotion` AFTER a better parent had replaced it (ghost `staleInc`, which the
+lock-step driver prints for every pass).  With the default `delayCC = true` EVERY history is clean
+(`rrtstar_clean_of_delayCC`), so for the default settings the theorems are unconditional as before; without
+cleanliness they are FALSE for the classic loop as coded (`rrtstar_classic_stale_inc_fails`).  `Laws o`: `isCostBetterThan` is a strict weak order, `combine c identity = c`, motion costs never
 improve a cost, `infiniteCost()` is not better than anything. -/
 section RRTstar
 open OmplModel.RRTstar
@@ -415,21 +422,22 @@ theorem rrtstar_optimized_flag {o : Obj σ α} (L : Laws o) (sp : Space σ δ) (
 `bestGoalMotion_` (the infinite cost when there is none), and `bestGoalMotion_` is one of `goalMotions_`.
 (`Laws2`: additionally, extending two costs by the same cost never reverses "not better" — so costs only improve
 under rewiring, `applyRewire_notWorse` — and costs that do not beat each other are equal.) -/
-theorem rrtstar_best_cost_sync {o : Obj σ α} (L : Laws2 o) (sp : Space σ δ) (ops : List (Op σ δ)) :
+theorem rrtstar_best_cost_sync {o : Obj σ α} (L : Laws2 o) (sp : Space σ δ) (ops : List (Op σ δ))
+    (hc : Clean o sp (St.init o sp) ops) :
     Sync o (run o sp (St.init o sp) ops) ∧
     ∀ g : Nat, (run o sp (St.init o sp) ops).bestGoal = some g → g ∈ (run o sp (St.init o sp) ops).goalMotions :=
-  run_binv L sp _ ops (init_inv o sp) (init_binv o sp)
+  run_binv L sp _ ops (init_inv o sp) (init_binv o sp) hc
 
 /-- FULL (was `rrtstar_optimized_flag_partial`): for every history, an EXACT solution registered by `solve()` is
 marked as meeting the objective exactly when its stored cost satisfies the threshold; an approximate one is flagged
 `isSatisfied(infiniteCost())`. -/
 theorem rrtstar_optimized_flag_exact {o : Obj σ α} (L : Laws2 o) (sp : Space σ δ) (ops : List (Op σ δ)) (r : Report σ α δ)
-    (h : report o (run o sp (St.init o sp) ops) = some r) :
+    (hc : Clean o sp (St.init o sp) ops) (h : report o (run o sp (St.init o sp) ops) = some r) :
     (r.approximate = false → r.optimized = o.isSatisfied r.storedCost) ∧
     (r.approximate = true → r.optimized = o.isSatisfied o.infinite) := by
   refine ⟨?_, (rrtstar_optimized_flag L.base sp ops r h).2.2.1⟩
   intro hexact
-  obtain ⟨hs, _⟩ := rrtstar_best_cost_sync L sp ops
+  obtain ⟨hs, _⟩ := rrtstar_best_cost_sync L sp ops hc
   obtain ⟨h1, h2, n, nm, h3, h4, h5, _⟩ := report_spec h
   rw [h2] at hexact
   unfold Sync at hs
@@ -448,29 +456,31 @@ a start has the identity cost; every other motion's `incCost` is `motionCost(par
 objective that says `isSymmetric()` the rewiring stores the cached reverse cost, which is the same by the
 symmetry law; otherwise it recomputes) and its `cost` is `combine(parent.cost, incCost)` — so
 `updateChildCosts` really restores the whole subtree after every rewiring, and its fuel never runs out. -/
-theorem rrtstar_cost_inv {o : Obj σ α} (L : Laws o) (sp : Space σ δ) (ops : List (Op σ δ)) :
+theorem rrtstar_cost_inv {o : Obj σ α} (L : Laws o) (sp : Space σ δ) (ops : List (Op σ δ))
+    (hc : Clean o sp (St.init o sp) ops) :
     (∀ j : Nat, CostOK o (run o sp (St.init o sp) ops).motions j) ∧ (run o sp (St.init o sp) ops).fuelOut = false :=
-  ⟨(run_inv L sp _ ops (init_inv o sp)).1.costOK, (run_inv L sp _ ops (init_inv o sp)).2⟩
+  ⟨(run_inv L sp _ ops (init_inv o sp) hc).1.costOK, (run_inv L sp _ ops (init_inv o sp) hc).2⟩
 
 /-- the tree invariant holds in EVERY reachable state: children lists are exactly the inverse of the parent
 pointers (no duplicates), and every parent chain reaches a start within `n = #motions` steps (no cycles: the
 strict rewiring test never re-parents an ancestor of the new motion, `ancestor_not_beaten`). -/
-theorem rrtstar_tree_inv {o : Obj σ α} (L : Laws o) (sp : Space σ δ) (ops : List (Op σ δ)) :
+theorem rrtstar_tree_inv {o : Obj σ α} (L : Laws o) (sp : Space σ δ) (ops : List (Op σ δ))
+    (hc : Clean o sp (St.init o sp) ops) :
     (∀ (p : Nat) (pm : Motion σ α) (c : Nat), (run o sp (St.init o sp) ops).motions[p]? = some pm →
       (c ∈ pm.children ↔ ∃ cm : Motion σ α, (run o sp (St.init o sp) ops).motions[c]? = some cm ∧ cm.parent = some p) ∧
       pm.children.Nodup) ∧
     (∀ i : Nat, i < (run o sp (St.init o sp) ops).motions.size →
       Complete (run o sp (St.init o sp) ops).motions (run o sp (St.init o sp) ops).motions.size i) :=
-  ⟨(run_inv L sp _ ops (init_inv o sp)).1.children, (run_inv L sp _ ops (init_inv o sp)).1.complete⟩
+  ⟨(run_inv L sp _ ops (init_inv o sp) hc).1.children, (run_inv L sp _ ops (init_inv o sp) hc).1.complete⟩
 
 /-- C04's "equals it for planners that do not defer cost propagation", for EVERY history: the cost stored with the
 solution `solve()` registers IS the cost of the reported path under the objective (`PathGeometric::cost`: the fold of
 `motionCost` with `combine`, identity initial and terminal cost) — for exact and approximate solutions alike. -/
 theorem rrtstar_stored_cost_truthful {o : Obj σ α} (L : Laws o) (sp : Space σ δ) (ops : List (Op σ δ)) (r : Report σ α δ)
-    (h : report o (run o sp (St.init o sp) ops) = some r) :
+    (hc : Clean o sp (St.init o sp) ops) (h : report o (run o sp (St.init o sp) ops) = some r) :
     r.storedCost = pathCost (algOf o) o.motionCost (fun _ => o.identity) (fun _ => o.identity)
       (statesOf (run o sp (St.init o sp) ops).motions r.pathIdx) := by
-  have hinv := run_inv L sp _ ops (init_inv o sp)
+  have hinv := run_inv L sp _ ops (init_inv o sp) hc
   obtain ⟨_, _, n, nm, _, h4, h5, h6⟩ := report_spec h
   obtain ⟨l, hl, hc⟩ := chain_cost o _ hinv.1.costOK _ n nm h4 (hinv.1.complete n (lt_of_get h4))
   rw [h5, h6, hl, hc]
@@ -535,6 +545,64 @@ def natSt : St Nat Nat Nat :=
     bestGoal := some 1, bestCost := 3, approxDist := 0 }
 
 example : (report natObj natSt).map (·.storedCost) = some 3 := by decide
+
+/-- with the default settings (`delayCC_ = true`) every history is clean: the theorems above are unconditional there. -/
+theorem rrtstar_clean_of_delayCC (o : Obj σ α) (sp : Space σ δ) (ops : List (Op σ δ)) (h : sp.delayCC = true) :
+    Clean o sp (St.init o sp) ops :=
+  clean_of_delayCC o sp _ ops h
+
+/-- a 1-D world for the classic loop (`delayCC = false`): states are naturals, distance `|a − b|`, range 10, the goal is
+the point 10, no goal sampling; `steer` is a parameter. -/
+def classicSp (steer : Nat → Nat → Nat → Nat) : Space Nat Nat :=
+  { dist := fun a b => (a - b) + (b - a), dlt := fun a b => decide (a < b), steer := steer, maxDistance := 10,
+    goalDist := fun s => (s - 10) + (10 - s), goalThr := 0, goalState := 10, maxGoalSamples := 0, goalBias := 0,
+    kNearest := fun _ => 5, dinf := 1000000, delayCC := false }
+
+/-- start at 0; samples 10 (becomes the goal motion 1 under the start) and 100 (steered from motion 1). -/
+def classicOps : List (Op Nat Nat) :=
+  [.start 0, .feed [] [10, 100] [true, true, true, true], .beginSolve, .iter, .iter]
+
+/-- non-vacuity of `Clean` with the classic loop switched on: with a steering function that moves along the line
+(10 → 20) the history is clean and non-trivial (three motions, an exact solution of cost 10 = its path cost). -/
+example : Clean natObj (classicSp (fun a _ _ => a + 10)) (St.init natObj (classicSp (fun a _ _ => a + 10))) classicOps ∧
+    (run natObj (classicSp (fun a _ _ => a + 10)) (St.init natObj (classicSp (fun a _ _ => a + 10))) classicOps).motions.size = 3 ∧
+    (report natObj (run natObj (classicSp (fun a _ _ => a + 10)) (St.init natObj (classicSp (fun a _ _ => a + 10))) classicOps)).map
+      (·.storedCost) = some 10 := by
+  refine ⟨fun _ k => ?_, by decide, by decide⟩
+  rcases k with _ | _ | _ | _ | _ | k
+  · decide
+  · decide
+  · decide
+  · decide
+  · decide
+  · rw [List.take_of_length_le (by simp [classicOps])]
+    decide
+
+/-- THE CLASSIC LOOP AS CODED IS NOT TRUTHFUL WITHOUT CLEANLINESS (negation of `rrtstar_cost_inv` /
+`rrtstar_stored_cost_truthful` for `delayCC_ = false`, concrete witness).  The `else` branch of the loop
+(`nbh[i] == nmotion`) caches `incCosts[i] = motion->incCost`, the new motion's CURRENT edge cost; when an earlier
+neighbour has already replaced `nmotion` as the parent, that is the cost of the edge from the NEW parent.  Here the new
+state 4 (steered from motion 1 = state 10 towards the sample, landing nearer to the start 0 — an `interpolate` that does
+not stay on the geodesic, or in C++ an exact distance tie that `nearestK` orders the other way) has the neighbourhood
+`[0, 1]`: the start becomes the parent (edge 4), then `incCosts[1] = 4` is cached for motion 1 although
+`motionCost(4, 10) = 6`; the rewiring loop (symmetric objective: cached reverse cost) re-parents the goal motion 1 under
+the new motion with `incCost 4`, `cost 8`.  `solve()` then stores cost 8 for the path `0 → 4 → 10` whose cost is 10:
+the stored cost is BETTER than the true cost.  All other clauses of the invariant still hold. -/
+theorem rrtstar_classic_stale_inc_fails :
+    (classicSp (fun _ _ _ => 4)).delayCC = false ∧
+    (run natObj (classicSp (fun _ _ _ => 4)) (St.init natObj (classicSp (fun _ _ _ => 4))) classicOps).staleInc = true ∧
+    ((run natObj (classicSp (fun _ _ _ => 4)) (St.init natObj (classicSp (fun _ _ _ => 4))) classicOps).motions[1]?.map
+      (fun m => (m.state, m.parent, m.incCost, m.cost))) = some (10, some 2, 4, 8) ∧
+    natObj.motionCost 4 10 = 6 ∧
+    ∃ r, report natObj (run natObj (classicSp (fun _ _ _ => 4)) (St.init natObj (classicSp (fun _ _ _ => 4))) classicOps) = some r ∧
+      r.approximate = false ∧ r.path = [0, 4, 10] ∧ r.storedCost = 8 ∧
+      pathCost (algOf natObj) natObj.motionCost (fun _ => natObj.identity) (fun _ => natObj.identity) r.path = 10 ∧
+      natObj.better r.storedCost
+        (pathCost (algOf natObj) natObj.motionCost (fun _ => natObj.identity) (fun _ => natObj.identity) r.path) = true := by
+  refine ⟨rfl, by decide, by decide, by decide, ?_⟩
+  refine ⟨_, rfl, ?_⟩
+  decide
+
 
 /-- a state obeying the invariant with a zero-length chain `1 → 2 → 3` (three motions at the same place):
 motion 3 (just inserted under 2) offers its ancestor 1 exactly the cost it already has. -/
